@@ -28,6 +28,8 @@ Lemma orch_facts :
   /\ extract_catches = "Exception" /\ extract_error_result_empty = true
   /\ check_reraises = ["ValueError"]
   /\ dir_parallel_collects_then_lint_files_parallel = true /\ parent_language_like_lint_file = true
+  /\ seq_entry_points = [("lint_files", false); ("lint_directory", true)]
+  /\ work_item = ["file_path"; "self.project_root"; "self.config"] /\ worker_builds_fresh_orchestrator_with_item_config = true
   /\ cli_dispatch = [("files", "lint_files_parallel", "lint_files"); ("dir", "lint_directory_parallel", "lint_directory")].
 Proof. repeat split; reflexivity. Qed.
 
@@ -118,7 +120,7 @@ Section OrchProofs.
   Lemma worker_ok q f vs : perfile f = Some vs -> exists ds, worker q f = Some ds /\ extract ds = vs.
   Proof.
     intros P. destruct (transport' vs (perfile_wf f vs P)) as (ds & T & F).
-    exists ds. unfold worker, OrchPar.worker. rewrite P, T. split; [reflexivity|].
+    exists ds. unfold worker, OrchPar.worker, worker_result. rewrite P, T. split; [reflexivity|].
     unfold extract. now rewrite F.
   Qed.
 
@@ -142,7 +144,7 @@ Section OrchProofs.
     cbn [mapM]. destruct (perfile f) as [vs|] eqn:P.
     - destruct (worker_ok q f vs P) as (ds & Wf & _). rewrite Wf.
       destruct (mapM perfile fs); [discriminate H|]. now rewrite (IH eq_refl).
-    - unfold worker, OrchPar.worker. now rewrite P, Q.
+    - unfold worker, OrchPar.worker, worker_result. now rewrite P, Q.
   Qed.
 
   (* with the handler every task returns; an erring task returns nothing *)
@@ -162,7 +164,7 @@ Section OrchProofs.
           destruct (mapM perfile fs) as [vss'|]; [|discriminate H]. injection H as <-.
           cbn [map]. now rewrite Ef, (E vss' eq_refl).
       + exists ([] :: futs). split; [|split].
-        * cbn [mapM]. unfold worker at 1, OrchPar.worker. now rewrite P, Q, W.
+        * cbn [mapM]. unfold worker at 1, OrchPar.worker, worker_result. now rewrite P, Q, W.
         * cbn [List.length]. now rewrite L.
         * intros vss H. cbn [mapM] in H. rewrite P in H. discriminate H.
   Qed.
@@ -349,6 +351,31 @@ Section OrchProofs.
     destruct (below mw cpu (f :: fs)) eqn:B; [apply below_spec in B; lia|].
     destruct (workers_swallow q (f :: fs) Q2) as (futs & W & _). rewrite W. discriminate.
   Qed.
+  (* several targets: every group on its own schedule; the command output is the same multiset, and it fails iff the sequential one fails *)
+  Lemma concat_opt_cons_equiv a b la lb :
+    out_equiv a b -> out_equiv (concat_opt la) (concat_opt lb) -> out_equiv (concat_opt (a :: la)) (concat_opt (b :: lb)).
+  Proof.
+    intros H1 H2. cbn [concat_opt]. destruct a as [x|], b as [y|]; cbn [out_equiv] in H1; try tauto.
+    destruct (concat_opt la) as [xs|], (concat_opt lb) as [ys|]; cbn [out_equiv] in H2 |- *; try tauto.
+    now apply Permutation_app.
+  Qed.
+
+  Theorem groups_par_equals_groups_seq q mw cpu scheds groups :
+    Forall2 (fun s g => Permutation s (seq 0 (List.length g))) scheds groups ->
+    out_equiv (groups_par_run file evidence perfile collect report parent_sees q mw cpu scheds groups)
+              (groups_seq_run file evidence perfile collect report groups).
+  Proof.
+    unfold groups_par_run, groups_seq_run. induction 1 as [|s g ss gs Hs _ IH]; [apply Permutation_refl|].
+    cbn [combine map fst snd]. apply concat_opt_cons_equiv; [|exact IH].
+    now apply par_equals_seq_source.
+  Qed.
+
+  (* the directory entry points: same statement on whatever the walk yields, recursive or not *)
+  Theorem dir_par_equals_dir_seq (dir : Type) (walk : dir -> bool -> list file) q mw cpu sched d recursive :
+    Permutation sched (seq 0 (List.length (walk d recursive))) ->
+    out_equiv (dir_par_run file evidence dir perfile collect report parent_sees walk q mw cpu sched d recursive)
+              (dir_seq_run file evidence dir perfile collect report walk d recursive).
+  Proof. apply par_equals_seq_source. Qed.
 End OrchProofs.
 
 (* 5. equal multisets give equal command output and equal exit status, for every command filter *)
